@@ -58,10 +58,10 @@ def check(ctx):
         ctx.design("ServerMC.tla", "Server_v6_panic.cfg", expect_fail="LocksFreeAtRest")
     st = {}
     if prop == "C01":
-        seeds = [ctx.seed] if ctx.quick else [ctx.seed, ctx.seed + 1, ctx.seed + 2]
+        seeds = [ctx.seed] if ctx.quick else [ctx.seed + i for i in range(8)]
         paths = []
         for sd in seeds:
-            args = ["-mode", "chains", "-seed", sd, "-level", 1 if ctx.quick else 2, "-ndg", 40 if ctx.quick else 120, "-par", max(4, core.NCPU - 2)]
+            args = ["-mode", "chains", "-seed", sd, "-level", 1 if ctx.quick else 2, "-ndg", 40 if ctx.quick else 160, "-par", max(4, core.NCPU - 2)]
             wd = ctx.scratch.sub("server-chains")
             t = os.path.join(wd, "chains.ndjson")
             core.run_harness(ctx.need_harness(), ["server"] + [str(a) for a in args] + ["-out", t, "-dir", os.path.join(wd, "w")], wd, timeout=3000)
